@@ -1,4 +1,51 @@
-(* placeholder until the theorems land *)
-From LV Require Import Base.Bytes Model.Client.
-Theorem C05_placeholder : True. Proof. exact I. Qed.
-Print Assumptions C05_placeholder.
+(* C05  A send reports success iff the server accepted the message; never twice.  Statements only. *)
+From LV Require Import Base.Bytes Base.Res Model.Codec Model.Response Model.ServerInfo Model.Client
+  Proofs.ClientProofs.
+
+(* The whole of send(), for every envelope, message, connection state and every peer script
+   (the script is part of the state `s` and is universally quantified):
+   - success: exactly MAIL, one RCPT per recipient in order, DATA and the message were written,
+     in that order, nothing else; the value returned is a positive reply; the connection is
+     left usable;
+   - failure: either a local refusal before anything was written (missing extension, state
+     untouched), or a non-empty prefix of that sequence was written followed by exactly QUIT, the
+     connection is marked broken and shut, and the error is the reply's class/code/text
+     (transient iff 4xx, permanent iff 5xx) or a response/network error;
+   - never a panic.
+   Consequences: at most one DATA and one message per send (no retry); message content only
+   after every earlier command was accepted. *)
+Theorem C05_send : forall (env : envelope) (msg : bytes) (s : cst),
+  shut s = false -> panic s = false ->
+  match send env msg s with
+  | (Ok r, s') => run_post s (expected_units env msg) true s' /\ is_positive r = true
+  | (Err e, s') =>
+      (s' = s /\ local_refusal e /\
+       ((has_non_ascii_addresses env = true /\ f_utf8 (info s) = false) \/
+        (negb (is_ascii msg) = true /\ f_8bit (info s) = false)))
+      \/ (run_post s (expected_units env msg) false s' /\ reply_verdict (Err e))
+  | (Panic, _) => False
+  end.
+Proof. exact send_units. Qed.
+
+(* success is the verdict of the reply read after the message: positive replies only *)
+Theorem C05_ok_is_positive_reply : forall (s : cst), reply_verdict (fst (read_response s)).
+Proof. exact read_response_verdict. Qed.
+
+(* every error path after the first write leaves the connection marked broken (used by C08) *)
+Theorem C05_abort_marks_broken : forall s : cst,
+  shut (abort s) = true /\ panic (abort s) = true.
+Proof. intros s. destruct (abort_units s) as (A & B & _). auto. Qed.
+
+Example C05_example :
+  let sc := [mkChunk [50;50;48;32;104;13;10] false; mkChunk [50;53;48;32;115;13;10] false;
+             mkChunk [53;53;48;32;110;111;13;10] false; mkChunk [50;50;49;32;98;13;10] false] in
+  match connect [120] sc with
+  | (Ok _, s) => shut s = false /\ panic s = false /\
+      exists e s', send (mkEnv None [[97;64;98]]) [104;105] s = (Err e, s') /\ ek e = Permanent /\ panic s' = true
+  | _ => False
+  end.
+Proof. cbn. repeat split; try reflexivity. eexists; eexists. repeat split; reflexivity. Qed.
+
+Print Assumptions C05_send.
+Print Assumptions C05_ok_is_positive_reply.
+Print Assumptions C05_abort_marks_broken.
